@@ -28,6 +28,9 @@ FINDING_WHAT = {
     "literal-does-not-parse": "parse_literal fails on a quoted terminal",
     "literal-matches-wrong-string": "a quoted terminal's pattern matches a string other than itself (or not itself)",
     "rerender-changes-language": "format!(\"{hir}\") of a regex terminal matches a different set of strings than the regex",
+    "rerender:repetition-of-repetition-printed-without-group":
+        "intern_token::compile writes format!(\"{hir}\") into the generated lexer; regex-syntax's HIR printer prints a repetition "
+        "of a repetition without a group (`(?:b+){0,1}` -> the lazy `b+?`), so the generated lexer matches a different language",
     "runtime-matcher-deviates": "the runtime MatcherBuilder disagrees with the regex crate on the re-rendered pattern",
     "debug-quote-not-read-back": "rustc reads the {:?}-quoted pattern text back as a different string",
     "quoted-constants-do-not-compile": "{:?}-quoted pattern text is not a valid Rust string literal",
@@ -54,7 +57,17 @@ def run(ctx):
     # direct property evaluation on the implementation
     fpath = os.path.join(out, "findings.jsonl")
     findings = [json.loads(l) for l in open(fpath, encoding="utf-8") if l.strip()]
-    for f in findings[:10]:
+    fresh = 0
+    seen_known = set()
+    for f in findings:
+        if ctx.is_known(f["kind"]) is not None:
+            if f["kind"] in seen_known:
+                continue
+            seen_known.add(f["kind"])
+        else:
+            fresh += 1
+            if fresh > 10:
+                continue
         ctx.failing_input(f["kind"], FINDING_WHAT.get(f["kind"], f["kind"]), f)
     ctx.oblige("quoted constants compile and run (rustc)", stats["rustc"].startswith("compiled"), stats["rustc"])
     ctx.coverage.update({
@@ -69,6 +82,7 @@ def run(ctx):
                              "not_parsable": stats["rer_unparsable"], "unsupported_by_lalrpop_nfa": stats["rer_lean_unsupported"],
                              "hir_semantics_disagreements": len(dis)},
         "generator_distribution": stats["hist"],
+        "findings_by_kind": {k: sum(1 for f in findings if f["kind"] == k) for k in sorted({f["kind"] for f in findings})},
     })
     ctx.assumptions += [
         "regex-syntax's parser/printer (third-party): general re-rendering is explored, not proved (rerender_preserves_language_partial)",
